@@ -63,6 +63,43 @@ def _upd(job):
                 accD=bool(m and m.end() == len(u)), today=drive.TODAY.toordinal(), dbg="update: %s %s -> %s / %s" % (pat, t0, t, u), pat=pat, via="update")
 
 
+def _show(job):
+    """`show` in a repository whose newest tag is ahead of the configured version: the PEP440 line belongs to the version that is shown"""
+    pat, kw, date, kw2 = job
+    from bumpver import v2version, v2patterns, version
+    from .. import fakevcs
+    t0 = v2version.format_version(glue.make_vinfo(date, **kw), pat)
+    t1 = v2version.format_version(glue.make_vinfo(date + dt.timedelta(days=400), **kw2), pat)
+    if not t0 or not t1 or not v2version.is_valid(t0, pat) or not v2version.is_valid(t1, pat) or " " in pat:
+        return None
+    try:
+        if not version.parse_version(t1) > version.parse_version(t0):
+            return None
+    except Exception:  # pylint:disable=broad-except
+        return None
+    dstr = v2patterns.normalize_pattern(pat, "{pep440_version}")
+    try:
+        DP = glue.parse_pattern(dstr)
+    except glue.OutsideGrammar:
+        return None
+    with drive.scratch_dir("c15s") as d:
+        proj = project.Project(os.path.join(d, "p"), vcs="git")
+        fv = fakevcs.FakeVCS(os.path.join(d, "fake"))
+        fv.set(tags=[t0, t1], tags_branch=[t0, t1], status="", remote="", branches="")
+        proj.write("bumpver.toml", project.bumpver_toml(t0, pat, [("info.txt", ["ver={version}"])]))
+        proj.write("info.txt", "ver=%s\n" % t0)
+        r = drive.cli(["show", "--no-fetch"], cwd=proj.root, env=fv.env())
+    shown, printed = r.shown_version(), r.pep440()
+    if r.exit != 0 or shown is None or printed is None:
+        return dict(unclassified="show failed or printed nothing", pat=pat, dstr=dstr, t=t1, exit=r.exit)
+    back = v2version.parse_version_info(shown, pat)
+    u = v2version.format_version(back, dstr)
+    rx = v2patterns.compile_pattern(pat, "{pep440_version}").regexp
+    m = rx.match(u)
+    return dict(ev="pep", P=glue.parse_pattern(pat), DP=DP, v=glue.state(back), t=glue.cp(shown), u=glue.cp(u), printed=glue.cp(printed),
+                accD=bool(m and m.end() == len(u)), today=drive.TODAY.toordinal(), dbg="show: %s config %s, newest tag %s -> shows %s / %s" % (pat, t0, t1, shown, printed), pat=pat, via="show")
+
+
 def run(ctx):
     rng = random.Random(ctx.seed)
     drive.setup(hooks=False)
@@ -97,6 +134,8 @@ def run(ctx):
         date = corpus.random_date(rng, 2001, 2098)
         ujobs.append((pat, corpus.random_state_kw(rng), date, corpus.random_flags(rng, pat), min(date + dt.timedelta(days=rng.choice([0, 1, 40])), dt.date(2099, 12, 31))))
     events += [e for e in drive.pmap(_upd, ujobs, hooks=False, chunksize=20) if e]
+    sjobs = [(pats[(i * 7) % len(pats)], corpus.random_state_kw(rng), corpus.random_date(rng, 2001, 2090), corpus.random_state_kw(rng)) for i in range(ctx.pick(300, 6000))]
+    events += [e for e in drive.pmap(_show, sjobs, hooks=False, chunksize=20) if e]
     uncl = [e for e in events if "unclassified" in e]
     events = [e for e in events if "unclassified" not in e]
     import re as _re
@@ -108,6 +147,7 @@ def run(ctx):
         e["id"] = i + 1
     ctx.count("library_cases", sum(1 for e in events if e["via"] == "library"))
     ctx.count("update_cases", sum(1 for e in events if e["via"] == "update"))
+    ctx.count("show_cases", sum(1 for e in events if e["via"] == "show"))
     fails, st = tlc.validate_events("Trace_Text", [{k: v for k, v in e.items() if k not in ("pat", "via")} for e in events], name="C15")
     ctx.add_trace(st)
     by_id = {e["id"]: e for e in events}
